@@ -25,7 +25,7 @@ func init() {
 		Title: "Block emission is non-increasing, non-negative and fully distributed",
 		Cases: func(t string) int { return tierN(t, 96, 900) },
 		Run:   runC13,
-		Rule: "case = one jklmint parameter set (TokensPerBlock x MintDecrease x ratio triple with sum<=100 x mint denom, drawn from a boundary grid by the PRNG) run for 40..400 (thorough: ..2000) consecutive blocks, optionally with one governance parameter change mid-run; " +
+		Rule: "case = one jklmint parameter set (TokensPerBlock x MintDecrease x ratio triple with sum<=100 x mint denom, drawn from a boundary grid by the PRNG) run for 40..400 (thorough: ..2000) consecutive blocks, optionally with one governance parameter change mid-run and (30% of the cases) one export -> restart from the exported genesis in the middle of the run; " +
 			"every block is one oracle evaluation (supply delta = coinbase = MintedTokens query, 0<=E_h<=E_{h-1}, exact floor split to fee collector / dev grants / stipend, module remainder, no other account credited); " +
 			"non-trivial signature = (TokensPerBlock class, MintDecrease class, ratio-sum class, denom, emission reached zero?, emission changed during run?, gov change?)",
 		Assumptions: []string{
@@ -117,12 +117,38 @@ func runC13(rc *RunCtx) {
 	govDone := false
 	var sample []string
 
+	restartAt := -1
+	if rc.Chance(0.3) {
+		restartAt = 3 + rc.Intn(blocks-3)
+	}
+	restarted := false
 	for b := 0; b < blocks; b++ {
 		if c.InBlock {
 			if err := c.EndAndCommit(); err != nil {
 				rc.Fail("C13/panic-endblock", "%v", err)
 				return
 			}
+		}
+		if b == restartAt {
+			// the chain is exported and restarted from its genesis file: the run of consecutive blocks continues
+			exp, err := c.Export()
+			if err != nil {
+				rc.Abort("export: " + err.Error())
+				return
+			}
+			c2, err := chain.NewFromExport(c, exp)
+			if err != nil {
+				if pe, ok := err.(*chain.PanicError); ok {
+					rc.Fail("C13/restart-panic", "InitChain on the exported state: %v", pe)
+				} else {
+					rc.Abort("restart: " + err.Error())
+				}
+				return
+			}
+			defer c2.Close()
+			c = c2
+			restarted = true
+			rc.Logf("exported at h=%d and restarted from the genesis file", c.Height)
 		}
 		pre := c.Snapshot()
 		preSup := c.Supply()
@@ -319,7 +345,7 @@ func runC13(rc *RunCtx) {
 	} else if tr.s+tr.d+tr.p == 0 {
 		sumc = "sum=0"
 	}
-	rc.NonTrivial(fmt.Sprintf("tpb%s/dec%s/%s/%s/zero=%v/changed=%v/gov=%v", classifyMag(tpb), classifyMag(dec), sumc, denom, reachedZero, changed, govDone))
+	rc.NonTrivial(fmt.Sprintf("tpb%s/dec%s/%s/%s/zero=%v/changed=%v/gov=%v/restart=%v", classifyMag(tpb), classifyMag(dec), sumc, denom, reachedZero, changed, govDone, restarted))
 	rc.Sample(map[string]interface{}{"params": fmt.Sprintf("%+v", mp), "blocks": blocks, "first_blocks": sample})
 }
 
